@@ -163,6 +163,10 @@ func (e *Engine) assumeAxioms(x *VC, env *SEnv) {
 		t := x.ev(lm.E, le).T
 		x.noName--
 		x.specMode--
+		if x.axiomLine == nil {
+			x.axiomLine = map[string]bool{}
+		}
+		x.axiomLine["(assert "+t+")"] = true
 		x.emit("(assert " + t + ")")
 		if lm.Axiom {
 			x.externs["axiom "+lm.Name] = true
